@@ -201,7 +201,7 @@ _mk_precedence(['keyspace', 'pv'])
 _mk_precedence(['idempotence'])
 
 
-@harness('C46', 'legacy-rejects-profile', functions=[SQ])
+@harness('C46', 'legacy-rejects-profile', functions=[SQ], native='contracts.native.c46:replay')
 def legacy_rejects(vc):
     """ensures legacy configuration mode rejects an explicitly given execution profile"""
     from cassandra import cluster as C
@@ -217,7 +217,7 @@ def legacy_rejects(vc):
     vc.check('raises/ValueError', kind == 'exc' and issubclass(exc_class(e), ValueError))
 
 
-@harness('C46', 'bound-statement-inherits', functions=['cassandra.query.BoundStatement.__init__'])
+@harness('C46', 'bound-statement-inherits', functions=['cassandra.query.BoundStatement.__init__'], native='contracts.native.c46:replay')
 def bound_inherits(vc):
     """ensures a BoundStatement takes retry policy, consistency, fetch size, serial consistency, keyspace and idempotence from its
     PreparedStatement unless the caller passes its own"""
